@@ -407,6 +407,58 @@ def canon_log(log, fw):
     return "[" + ";".join(res) + "]"
 
 
+def run_hs_splits(ck):
+    """handshake ++ frames as ONE stream under every cut position (incl. cuts inside the handshake with frame octets following
+    in the same read, and a second cut right after), all four implementation x role combinations; oracle: every message is
+    delivered intact and in order, nothing is closed, nothing escapes"""
+    coq, n_eval = [], 0
+    rng = ck.rng("hs-splits")
+    for fw in FWS:
+        plans = []
+        for role in ("server", "client"):
+            for ser in ("json", "msgpack", "cbor"):
+                plans.append((role, ser, [{"id": 200 + i, "pad": rng.randint(0, 6)} for i in range(2 if ser == "json" else 3)]))
+        fr = ck.run_impl(DRIVER, {"fw": fw, "jobs": [dict(op="frames", ser=ser, msgs=msgs) for _, ser, msgs in plans]})["results"]
+        jobs, meta = [], []
+        for (role, ser, msgs), f in zip(plans, fr):
+            rsid = RS_ID[ser]
+            payloads = [bytes.fromhex(x["payload"]) for x in f["frames"]]
+            hs = bytes([0x7F, (rng.choice([0, 3, 15]) << 4) | rsid, 0, 0])
+            data = hs + b"".join(len(p).to_bytes(4, "big") + p for p in payloads)
+            n = len(data)
+            cuts = [(i,) for i in range(1, n if (ser == "json" or not ck.quick()) else 14)]
+            cuts += [(i, j) for i in (1, 2, 3) for j in range(i + 1, 10)] + [(1, 2, 3, 9), (2, 6), (3, 4, 5)]
+            for cs in cuts:
+                pts = [0] + list(cs) + [n]
+                chunks = [data[a:b] for a, b in zip(pts, pts[1:])]
+                jobs.append(dict(op="script", jobs=[
+                    dict(op="new", ep="e", kind="rs", role=role, sers=[ser], max=None, sess={}),
+                    dict(op="feed", ep="e", chunks=[c.hex() for c in chunks], env_stop="framing"),
+                    dict(op="lost", ep="e", clean=True)]))
+                meta.append((role, ser, msgs, chunks, rsid))
+        out = ck.run_impl(DRIVER, {"fw": fw, "jobs": jobs})["results"]
+        for (role, ser, msgs, chunks, rsid), o in zip(meta, out):
+            n_eval += 1
+            log = [e for r in o["results"] for e in r["log"]]
+            got = [e[1] for e in log if e[0] == "sess_msg"]
+            bad = [e for e in log if e[0] in ("abort", "lose", "escaped")]
+            want = [m["id"] for m in msgs]
+            ck.bump(f"hs-split/{fw}/{role}")
+            if got != want or bad or sum(1 for e in log if e[0] == "sess_close") != 1:
+                ck.violation(f"rawsocket.{fw}.{role}/handshake+frames/segmentation/delivery",
+                             f"{fw} RawSocket {role} ({ser}): handshake and frames in one stream cut as {[len(c) for c in chunks]}: "
+                             f"delivered {got} (expected {want}), failures {bad[:3]}",
+                             dict(kind="rs-conn", fw=fw, role=role, ser=ser, pos=0, corr="none", split=[len(c) for c in chunks],
+                                  lost_clean=True, mx=None, chunks=[c.hex() for c in chunks], react={}, log=log), True)
+            coq.append("(%d,%d,%s,16777216,false,[%s],[%s;ILost true],%s)" % (
+                0 if fw == "tx" else 1, 0 if role == "server" else 1, nlist([rsid]),
+                ";".join("Batch [(%d,ROk)]" % m["id"] for m in msgs), ";".join("IData %s" % nlist(c) for c in chunks), canon_log(log, fw)))
+    ck.evaluations += n_eval
+    ck.note_cases(0, coq)
+    ck.log(f"handshake+frames in one stream: {n_eval} cut patterns (every cut position; cuts inside the handshake with trailing frame octets)")
+    return coq
+
+
 def run_conns(ck):
     """scenarios are scripted per framework in batch mode; the peer's octets are produced with the real serializers"""
     coq, n_eval = [], 0
@@ -981,6 +1033,7 @@ def run(ck):
     hs_cases = run_hs(ck)
     fr_cases = run_frames(ck)
     cn_cases = run_conns(ck)
+    cn_cases += run_hs_splits(ck)
     drv = {fw: Drv(fw) for fw in FWS}
     try:
         run_rs_pairs(ck, drv)
